@@ -23,6 +23,7 @@ func init() {
 			{ID: "C15.R4", Floor: 4, Run: c07r2, Text: "cache list ⇄ position bookkeeping (= C07.R2): needed because Reset re-issues entity handles, so tables are added for a target after one was removed"},
 			{ID: "C15.R5", Floor: 2, Run: c15r5, Text: "element-wise reset loops in the reset chain range over the whole slice they clear (index from 0, bound len of the same slice)"},
 			{ID: "C15.R6", Floor: 8, Run: c03r3, Text: "table selection by activity, not by length (= C03.R3): after Reset tables exist but are empty; filters registered then must still receive them"},
+			{ID: "C15.R7", Floor: 6, Run: resetMustWrite, Text: "reset on every path: each run-state field that Reset resets (R1) is written on every path of Reset to a normal return (must-flow over Reset; inside callees the write is may)"},
 		},
 	})
 }
